@@ -20,10 +20,15 @@ type WriteFaultFn func(path string, p []byte) (n int, err error, handled bool)
 // DiskFreeFn overrides the free space reported for a root directory.
 type DiskFreeFn func(root string) (free uint64, ok bool)
 
+// OpFaultFn decides about a file system operation ("os.mkdirall", "os.create"):
+// a non-nil error is returned to the caller instead of performing the operation.
+type OpFaultFn func(op, path string) error
+
 var (
 	handler    atomic.Pointer[Handler]
 	writeFault atomic.Pointer[WriteFaultFn]
 	diskFree   atomic.Pointer[DiskFreeFn]
+	opFault    atomic.Pointer[OpFaultFn]
 )
 
 // SetHandler installs (or removes with nil) the point handler.
@@ -88,4 +93,21 @@ func DiskFree(root string) (uint64, bool) {
 		return (*f)(root)
 	}
 	return 0, false
+}
+
+// SetOpFault installs (or removes with nil) the operation fault function.
+func SetOpFault(f OpFaultFn) {
+	if f == nil {
+		opFault.Store(nil)
+		return
+	}
+	opFault.Store(&f)
+}
+
+// OpFault consults the operation fault function.
+func OpFault(op, path string) error {
+	if f := opFault.Load(); f != nil {
+		return (*f)(op, path)
+	}
+	return nil
 }
